@@ -102,6 +102,11 @@ def gen_fit_data(rng, p, scale):
     return {"dgms": dgms, "single": single, "skew": rng.random() < 0.7}
 
 
+def reset_world():
+    from sim import world
+    world.reload_persim(("persim.images_kernels", "persim.images_weights", "persim.images"))
+
+
 def gen_case(rng, tier):
     K = rng.choice((1, 1, 2, 3))
     scale = rng.choice(SCALES)
